@@ -18,6 +18,8 @@ TRUSTED_BASE = [
     "`from m import *` exposure rule (Python language reference 7.11): __all__ when defined, else public (non-underscore) names; submodules only if imported",
     "one arbitrary wildcard statement and one arbitrary exposed name per expansion (generic iteration); set_member / del_member / get_member by contract (C16)",
     "Alias proxies: the list of proxy properties is read from the real class body on every run; each is proved to return the final target's attribute",
+    "visit_importfrom.wildcard_members_do_not_collide: str.replace is uninterpreted; two string facts are assumed for dotted module paths (no '/' and no '*' in "
+    "them): s -> s.replace('.', '/') is injective and keeps a final '*', and (m + '.*').replace('.*', '') == m; relative_to_absolute by contract (C04) returns m + '.*' for a wildcard",
 ]
 ASSUMPTIONS = [
     "not covered by proof: that the composition (load + expand_exports + expand_wildcards + resolve_aliases) equals what CPython's importer produces for a whole "
@@ -402,3 +404,58 @@ def c_visit_augassign(P):
         else:
             P.prove("a_string_is_kept_as_it_is", zbool(P.eq(got, SStr(ITEM_STR(k_.z)))))
     P.cover("visit_augassign")
+
+
+# --------------------------------------------------------------------------- two wildcard statements in one module
+@contract("C05", "visit_importfrom.wildcard_members_do_not_collide", [VSV + "visit_importfrom"], floor=3, replay="replay_packages")
+def c_two_wildcards(P):
+    """`from a import *` and `from b import *` in one module both contribute ("later statements overriding earlier ones"): the temporary members they leave for
+    expand_wildcards are keyed by the module each one targets, so two statements collide only if they target the same module -- however the module is written
+    (`.util` and `..util` spell the same text and reach different modules)."""
+    H = Heap(P)
+    cur = H.obj("current", ["Module", "Class"])
+    cur.fields["imports"] = {}
+    v = SObj("Visitor", {"current": cur, "type_guarded": SBool(z3.Bool("type_guarded")), "extensions": Opaque("lenient:extensions")}, ident=z3.Int("visitor_id"))
+    sets = []
+    P.opaque_hooks["_griffe.mixins:SetMembersMixin.set_member"] = lambda P_, a, k: sets.append(a)
+    P.opaque_hooks["new:Alias"] = lambda P_, a, k: SObj("Alias", {"name": a[0], "target_path": a[1]}, ident=P_.new_ident())
+    module = H.obj("module", ["Module"])
+    P.attr_hooks[("Object", "module")] = lambda P_, o: module
+    P.attr_hooks[("Module", "is_init_module")] = lambda P_, o: SBool(z3.Bool("current_module_is_init"))
+    targets = [z3.String("TARGET_1"), z3.String("TARGET_2")]
+    REPL = models.ufn("str_replace", StrS, StrS, StrS, StrS)
+    for t in targets:
+        P.assume(z3.And(z3.Length(t) > 0, z3.Not(z3.Contains(t, z3.StringVal("/"))), z3.Not(z3.Contains(t, z3.StringVal("*")))))
+        P.assume(REPL(z3.Concat(t, z3.StringVal(".*")), z3.StringVal(".*"), z3.StringVal("")) == t)
+        P.assume(z3.SuffixOf(z3.StringVal("*"), REPL(z3.Concat(t, z3.StringVal(".*")), z3.StringVal("."), z3.StringVal("/"))))     # replacing dots keeps the final '*'
+    P.assume((REPL(targets[0], z3.StringVal("."), z3.StringVal("/")) == REPL(targets[1], z3.StringVal("."), z3.StringVal("/"))) == (targets[0] == targets[1]))
+    # the same fact for the paths still carrying their '.*' (whichever of the two the code replaces in)
+    P.assume((REPL(z3.Concat(targets[0], z3.StringVal(".*")), z3.StringVal("."), z3.StringVal("/"))
+              == REPL(z3.Concat(targets[1], z3.StringVal(".*")), z3.StringVal("."), z3.StringVal("/"))) == (targets[0] == targets[1]))
+    calls = []
+
+    def rel2abs(P_, a, k):
+        calls.append(a)
+        return SStr(z3.Concat(targets[len(calls) - 1], z3.StringVal(".*")))
+    P.opaque_hooks["_griffe.agents.nodes.imports:relative_to_absolute"] = rel2abs
+    P.opaque_hooks["_griffe.agents.visitor:relative_to_absolute"] = rel2abs
+    for i in (1, 2):
+        al = SObj("ast.alias", {"name": "*", "asname": None}, frozen=True)
+        level = P.fresh_int(f"level_{i}")
+        P.assume(level.z >= 0)
+        text = P.fresh_str(f"node_module_{i}")
+        P.assume(z3.Length(text.z) > 0)
+        node = SObj("ast.ImportFrom", {"names": [al], "module": text, "level": level, "lineno": P.fresh_int(f"lineno_{i}"), "end_lineno": P.fresh_int(f"end_lineno_{i}")},
+                    frozen=True)
+        kind, res = outcome(P, lambda: call(P, VSV + "visit_importfrom", v, node))
+        P.prove("never_raises", kind == "ok", exc=str(res))
+        if kind != "ok":
+            return
+    P.prove("one_temporary_member_per_wildcard_statement", len(sets) == 2, sets=len(sets))
+    if len(sets) != 2:
+        return
+    (_, k1, a1), (_, k2, a2) = sets
+    P.prove("temporary_member_points_at_the_targeted_module", z3.And(zstr(a1.fields["target_path"]) == targets[0], zstr(a2.fields["target_path"]) == targets[1]))
+    P.prove("statements_targeting_different_modules_do_not_collide", z3.Implies(zstr(k1) == zstr(k2), targets[0] == targets[1]))
+    P.prove("member_keyed_by_alias_name", z3.And(zstr(k1) == zstr(a1.fields["name"]), zstr(k2) == zstr(a2.fields["name"])))
+    P.cover("two_wildcards")
